@@ -15,10 +15,11 @@ import (
 
 // Op is one step of a compute function (Coq: Reactive.Rerunner.op).
 type Op struct {
-	Kind string `json:"k"`    // dep | timer | cache | fail | retry
-	Slot int    `json:"slot"` // dep
-	Key  int    `json:"key"`  // cache
-	Body []Op   `json:"body"` // cache
+	Kind string `json:"k"`             // dep | timer | cache | fail | retry
+	Slot int    `json:"slot"`          // dep
+	Key  int    `json:"key"`           // cache
+	Body []Op   `json:"body"`          // cache
+	Alt  bool   `json:"alt,omitempty"` // cache: the call is left out on every second compute of the rerunner
 }
 
 type RR struct {
@@ -78,7 +79,7 @@ func genProg(r *vh.Rng, slots int, depth int, path []int, top bool) []Op {
 				p = append(p, Op{Kind: "dep", Slot: r.Intn(slots)})
 				continue
 			}
-			p = append(p, Op{Kind: "cache", Key: key, Body: genProg(r, slots, depth-1, append(append([]int{}, path...), key), false)})
+			p = append(p, Op{Kind: "cache", Key: key, Alt: r.Chance(20), Body: genProg(r, slots, depth-1, append(append([]int{}, path...), key), false)})
 		case k < 88:
 			p = append(p, Op{Kind: "timer"})
 		case k < 94:
